@@ -20,6 +20,7 @@ fn main() {
             // the channel promises never to block its callers: a case that does not return is a violation
             s.hang_is_violation(120);
             s.require("self-reported-metrics", 2000);
+            s.require("send-inside-receiver-allocation", 1000);
         s.require("panic", 2000);
         s.require("retry-chain>=3", 2000);
         s.require("retries-exhausted", 500);
@@ -32,6 +33,8 @@ fn main() {
             s.enumerate("e2-small-scope", e2::small_cases(max_len, &[1, 2]), |c, cx| e2::check(&c.to_case(), Prop::C08, cx));
             s.gen("e7-os-threads", s.n(3_000, 150_000), || e7::workload(3), |c, cx| e7::check(c, Prop::C08, cx));
         s.gen("e7-blocking-contexts", s.n(240, 6_000), e7::blocking_case, |c, cx| e7::check_blocking(c, cx));
+            // OTLP end-to-end clause of this property (real emit_otlp emitter against the scripted collector; harness/c12/src/e2e.rs)
+            c12::e2e::register_c08(s);
         },
     )
 }
